@@ -9,6 +9,9 @@ import (
 	"path/filepath"
 	"strconv"
 	"strings"
+	"runtime"
+	"sync"
+	"time"
 
 	"encoding/hex"
 
@@ -63,6 +66,15 @@ func (im *impl) reload() {
 		panic(fmt.Sprintf("reload: %v", err))
 	}
 	im.pv = pv
+}
+
+// slowSigner: a signing backend that takes its time (an HSM, a remote signer)
+type slowSigner struct{ inner types.Signer }
+
+func (s slowSigner) Sign(msg []byte) crypto.Signature {
+	runtime.Gosched()
+	time.Sleep(300 * time.Microsecond)
+	return s.inner.Sign(msg)
 }
 
 func wm(pv *types.PrivValidator) string {
@@ -238,6 +250,55 @@ func main() {
 			released[k] = b
 			if !have || !(k.h < top.h || (k.h == top.h && (k.r < top.r || (k.r == top.r && k.s < top.s)))) {
 				top, have = k, true
+			}
+		}
+	}
+
+	// ------------------------------------------------------------ concurrent requests (Go-side oracle only)
+	// The signer is shared by goroutines (consensus routine, RPC, reactors); check + sign + durable write
+	// must be one step under its mutex. A slow signing backend (what SetSigner is for) widens any window.
+	for c := 0; c < r.Scale(30, 300); c++ {
+		im.fresh()
+		im.pv.SetSigner(slowSigner{im.pv.Signer})
+		h := int64(R.Range(1, 5))
+		rd := int64(R.Range(0, 3))
+		type res struct {
+			sig crypto.Signature
+			err error
+			sb  []byte
+		}
+		mk := func(round int64, blk byte) *types.Vote {
+			return &types.Vote{ValidatorAddress: im.pv.Address, ValidatorIndex: 0, Height: h, Round: round, Type: 2,
+				BlockID: types.BlockID{Hash: []byte{blk}, PartsHeader: types.PartSetHeader{Total: 1, Hash: []byte{1}}}}
+		}
+		sameHRS := c%2 == 0
+		v1, v2 := mk(rd, 0xA1), mk(rd, 0xB2)
+		if !sameHRS {
+			v2 = mk(rd+1, 0xB2) // the later round may overtake the earlier one: the watermark must not go back
+		}
+		out := make([]res, 2)
+		start := make(chan struct{})
+		var wg sync.WaitGroup
+		for i, v := range []*types.Vote{v1, v2} {
+			wg.Add(1)
+			go func(i int, v *types.Vote) {
+				defer wg.Done()
+				<-start
+				err := im.pv.SignVote(chainID, v)
+				out[i] = res{v.Signature, err, types.SignBytes(chainID, v)}
+			}(i, v)
+		}
+		close(start)
+		wg.Wait()
+		r.Count("concurrent." + map[bool]string{true: "same-hrs", false: "two-rounds"}[sameHRS])
+		ops := []string{fmt.Sprintf("go concurrent h=%d r=%d same=%v", h, rd, sameHRS)}
+		if sameHRS && out[0].err == nil && out[1].err == nil {
+			r.Fail(vh.Failure{Class: "equivocation-under-concurrent-requests", Detail: fmt.Sprintf("two concurrent requests for height/round/step %d/%d/precommit with different blocks both obtained a signature", h, rd), Ops: ops, Got: "two signatures", Want: "one signature, one error"})
+		}
+		if !sameHRS && out[1].err == nil {
+			disk, err := types.LoadPrivValidator(im.file)
+			if im.pv.LastRound != rd+1 || err != nil || disk.LastRound != rd+1 {
+				r.Fail(vh.Failure{Class: "watermark-goes-back-under-concurrent-requests", Detail: fmt.Sprintf("a precommit for round %d was released, yet the signer's record (memory %s) stands at an earlier round afterwards", rd+1, wm(im.pv)), Ops: ops, Got: wm(im.pv), Want: fmt.Sprintf("%d/%d/3", h, rd+1)})
 			}
 		}
 	}
